@@ -266,12 +266,12 @@ func harnessKey(fn string) string {
 }
 
 // evalTerms asks a solver for the values of terms in a model of the failed obligation.
-func (e *Engine) evalTerms(o *Obligation, nts []namedTerm) (map[string]uint64, bool) {
+func (e *Engine) evalTerms(o *Obligation, nts []namedTerm, extra ...*Term) (map[string]uint64, bool) {
 	var terms []*Term
 	for _, nt := range nts {
 		terms = append(terms, nt.t)
 	}
-	hyps := e.PrepareQF(o)
+	hyps := append(e.PrepareQF(o), extra...)
 	script := e.tb.Script(hyps, nil, true, false, terms...)
 	var keep []string
 	for _, l := range strings.Split(script, "\n") {
@@ -344,7 +344,17 @@ func (e *Engine) tryReplay(vdir, prop string, o *Obligation, replayFile string) 
 		note("replay", "inputs of the model could not be located")
 		return false
 	}
-	vals, ok := e.evalTerms(o, nts)
+	// prefer a counter-model with a buffer the harness can write down
+	var small []*Term
+	for _, nt := range nts {
+		if nt.name == "rb.len" {
+			small = append(small, e.tb.SLe(nt.t, e.tb.BVI(64, replayBytes)), e.tb.SLe(e.tb.BVI(64, 0), nt.t))
+		}
+	}
+	vals, ok := e.evalTerms(o, nts, small...)
+	if !ok {
+		vals, ok = e.evalTerms(o, nts)
+	}
 	if !ok {
 		note("replay", "no concrete model of the instantiated query within 30 s")
 		return false
